@@ -5,7 +5,7 @@ use std::sync::atomic::{AtomicBool, AtomicI64, AtomicUsize, Ordering::SeqCst};
 
 #[derive(Clone, Copy)]
 pub struct Ev { pub kind: u8, pub a: u64, pub b: u64, pub ret: i64, pub n: u8, pub content: [u8; 32], pub tid: u64 }
-const CAP: usize = 1 << 18;
+const CAP: usize = 1 << 20;
 static mut LOG: [Ev; CAP] = [Ev { kind: 0, a: 0, b: 0, ret: 0, n: 0, content: [0; 32], tid: 0 }; CAP];
 static LEN: AtomicUsize = AtomicUsize::new(0);
 pub static RECORD: AtomicBool = AtomicBool::new(false);
